@@ -42,6 +42,17 @@ def gen_abf(r, cid, big=False):
     rounds = r.randint(1, 3)
     t_end = F * rounds + r.randint(0, F - 1)
     p_restart = r.choice([0.0, 0.0, 0.1, 0.25])
+    # mode "script": no "shared on" in the configuration, all walkers call "cv bias a share" after the steps in xsteps
+    # mode "oldfmt": restarts go through a state of the older format (no last_* section), right after an exchange
+    mode = r.choice(["freq"] * 5 + ["script"] * 2 + ["oldfmt"])
+    xsteps = set()
+    if mode == "script":
+        xsteps = set(t for t in range(1, t_end + 1) if r.random() < 0.4) or {max(1, t_end)}
+        F = 0
+        p_restart = r.choice([0.0, 0.15, 0.3])
+    elif mode == "oldfmt":
+        p_restart = 0.6
+    output = r.random() < 0.5        # output prefix set: end-of-run output files are written at "o" events
     seqs = []
     for w in range(n):
         s = []
@@ -53,8 +64,12 @@ def gen_abf(r, cid, big=False):
             frac = r.choice([0.5, 0.5, 0.0, 0.25, 0.984375])
             forces = [V.dyadic(r, -8, 8) for _ in range(nd)]
             s.append(["s", w, bins, forces, frac])
-            if r.random() < p_restart and t < t_end:
-                s.append(["r", w, r.choice(["text", "binary"])])
+            if t in xsteps:
+                s.append(["x", w])
+            if output and r.random() < 0.15:
+                s.append(["o", w])
+            if r.random() < p_restart and t < t_end and (mode != "oldfmt" or (t > 0 and t % F == 0)):
+                s.append(["R" if mode == "oldfmt" else "r", w, r.choice(["text", "binary"])])
                 s.append(["s", w, bins, [V.dyadic(r, -8, 8) for _ in range(nd)], frac])   # the repeated step
         seqs.append(s)
     # interleave: a walker that issued an exchange step is blocked until all walkers issued theirs
@@ -87,10 +102,20 @@ def gen_abf(r, cid, big=False):
                 pending.add(w)
                 if len(pending) == n:
                     pending = set()
-        else:
+        elif ev[0] == "x":
+            pending.add(w)
+            if len(pending) == n:
+                pending = set()
+        elif ev[0] in ("r", "R"):
             first[w] = True
             last[w] = t[w]
-    return {"kind": "abf", "id": cid, "n": n, "nd": nd, "nbins": nbins, "freq": F, "apply": r.random() < 0.7,
+    integrate, smp = r.random() < 0.6, r.random() < 0.25
+    if mode == "oldfmt":
+        smp = False      # (the smp cases have a second bias: the ABF block must be the last one of an unformatted state)
+        if r.random() < 0.5:
+            # at the very end one walker is given an unformatted state cut inside the "last_samples" keyword
+            events.append(["R", r.randrange(n), "binary", True])
+    return {"kind": "abf", "id": cid, "mode": mode, "script": mode == "script", "oldfmt": mode == "oldfmt", "output": output, "hist": output and r.random() < 0.4, "integrate": integrate, "smp": smp, "n": n, "nd": nd, "nbins": nbins, "freq": F, "apply": r.random() < 0.7,
             "full": r.choice([1, 2, 200]), "events": events}
 
 
@@ -186,6 +211,29 @@ def abf_expect(case):
                 qmap[k] = nq
                 nq += 1
                 exp[k] = dict(grids(w, nshared), last_step=last[w], restarted=restarted)
+        elif ev[0] == "o":
+            tokens.append("q,%d" % w)
+            qmap[k] = nq
+            nq += 1
+            exp[k] = dict(grids(w, nshared), last_step=last[w], restarted=restarted)
+        elif ev[0] == "x":
+            # exchange asked for by the script, at the step every walker is at
+            nt = t[w] if t[w] is not None else 0
+            last[w] = nt
+            tokens.append("a,%d" % w)
+            pending.append((k, w, None))
+            if len(pending) == n:
+                for v in range(n):
+                    nshared[v] = len(own[v])
+                tokens.append("x,%d" % nt)
+                for (pk, pw, psmp) in pending:
+                    tokens.append("q,%d" % pw)
+                    qmap[pk] = nq
+                    nq += 1
+                    exp[pk] = dict(grids(pw, nshared), last_step=nt, restarted=restarted)
+                pending = []
+        elif ev[0] == "R" and len(ev) > 3 and ev[3]:
+            exp[k] = None          # a damaged state: must be refused (checked on the LOAD line)
         else:
             restarted = True
             first[w] = True
@@ -195,7 +243,7 @@ def abf_expect(case):
             qmap[k] = nq
             nq += 1
             exp[k] = dict(grids(w, nshared), last_step=last[w], restarted=True)
-    line = "ABF 0 %d %d %d %d %s" % (n, nc, nd, F, " ".join(tokens))
+    line = "ABF %d %d %d %d %d %s" % (1 if case.get("oldfmt") else 0, n, nc, nd, F, " ".join(tokens))
     return exp, line, qmap, dmap
 
 
@@ -247,9 +295,10 @@ def check_abf(run, exe, model, cases, scratch):
             # every deadlocked case costs its timeouts: two concrete ones are enough
             run.dist("abf:skipped-after-deadlocks")
             continue
-        nrest = sum(1 for e in c["events"] if e[0] == "r")
+        nrest = sum(1 for e in c["events"] if e[0] in ("r", "R"))
         key = "abf n=%d nd=%d F=%d ev=%d r=%d" % (c["n"], c["nd"], c["freq"], len(c["events"]), nrest)
         run.dist("abf:n=%d" % c["n"])
+        run.dist("abf:mode=%s" % c.get("mode", "freq"))
         run.dist("abf:restarts" if nrest else "abf:no-restart")
         run.count(json.dumps(c["events"]), True)
         run.sample({"kind": "abf", "n": c["n"], "nd": c["nd"], "nbins": c["nbins"], "freq": c["freq"],
@@ -258,11 +307,15 @@ def check_abf(run, exe, model, cases, scratch):
             out, stats = run_twice(scen.run_abf, exe, c, scratch, timeout=10.0)
         except W.WalkerTimeout as e:
             ndead += 1
-            run.violation("abf:exchange-deadlock", "the walkers did not complete the schedule (%s): a walker waits for an "
+            run.violation("abf:walker-crashed" if "exited (rc=-" in str(e) else "abf:exchange-deadlock", "the walkers did not complete the schedule (%s): a walker waits for an "
                           "exchange the others do not perform, or a message is missing; case %s" % (str(e)[:200], key),
                           {"kind": "abf", "case": c})
             continue
         mres = parse_model_abf(mo)
+        par = [x for s_ in stats for x in s_ if "parallel=" in x and "parallel=0" not in x]
+        if par:
+            run.violation("abf:replica-calls-in-parallel-bias-loop", "with the engine's thread pool on, replica_comm calls were made from inside the parallel "
+                          "loop over the biases: %s" % par[:2], {"kind": "abf", "case": c})
         bad_stats = [s for s in stats if not any("errors=0" in x for x in s)]
         if bad_stats:
             ndead += 1
@@ -270,9 +323,31 @@ def check_abf(run, exe, model, cases, scratch):
                           {"kind": "abf", "case": c})
         tie_ok = True
         for k, ev in enumerate(c["events"]):
+            if out[k] is not None and ev[0] in ("r", "R"):
+                loads = [x for x in out[k][1] if x.startswith("LOAD")]
+                cut = ev[0] == "R" and len(ev) > 3 and ev[3]
+                if cut and any("err=ok" in x for x in loads):
+                    run.dist("abf:cut-state")
+                    run.violation("abf:cut-state-accepted", "walker %d accepted an unformatted state that ends 3 bytes into the \"last_samples\" "
+                                  "keyword as a complete one (%s); case %s" % (ev[1], loads, key), {"kind": "abf", "case": c, "event": k})
+                    break
+                if cut:
+                    run.dist("abf:cut-state")
+                if not cut and not any("err=ok" in x for x in loads):
+                    run.violation("abf:own-state-refused", "walker %d could not read the state it (or, for the older format, its predecessor) had written: %s; "
+                                  "case %s" % (ev[1], out[k][1], key), {"kind": "abf", "case": c, "event": k})
+                    break
             if out[k] is None or exp[k] is None:
                 continue
             w, errl, impl = out[k]
+            if impl is not None and c.get("script"):
+                # before the first call of "share" the local grids do not exist yet (nothing was exchanged: zero), and the
+                # step of the last exchange plays no part (no frequency: exchanges happen when the script says so)
+                e_ = exp[k]
+                impl = dict(impl, last_step=e_["last_step"])
+                for f_ in ("ocnt", "osum"):
+                    if impl.get(f_) is None:
+                        impl[f_] = [0] * len(e_[f_]) if f_ == "ocnt" else [0.0] * len(e_[f_])
             if impl is None:
                 run.violation("abf:no-state", "walker %d printed no shared-ABF state after event %d of case %s" % (w, k, key),
                               {"kind": "abf", "case": c, "event": k})
@@ -280,7 +355,10 @@ def check_abf(run, exe, model, cases, scratch):
             e = exp[k]
             exact = not e["restarted"]
             # property oracle on the implementation alone: union exactly once / own contribution recoverable
-            d = same_abf(impl, e, exact)
+            # (a state of the older format does not say what had been exchanged: everything restored counts as exchanged, and the
+            # samples collected since the last exchange are never sent -- C14_abf_union_once_before_repair_refuted; after such a
+            # restart only the tie with the model of that reading rule, w_restart_old, goes on)
+            d = None if (c.get("oldfmt") and e["restarted"]) else same_abf(impl, e, exact)
             if d is not None:
                 what = {"cnt": "global count", "sum": "global gradient sum", "lcnt": "snapshot count", "lsum": "snapshot sum",
                         "ocnt": "local count", "osum": "local sum", "last_step": "shared_last_step"}[d]
@@ -305,7 +383,7 @@ def check_abf(run, exe, model, cases, scratch):
                 run.mismatch("abf", {"case": c, "event": k, "field": d}, {x: impl[x] for x in ("cnt", "sum", "lcnt", "lsum", "ocnt", "osum", "last_step")}, m)
                 tie_ok = False
                 continue
-            if m.get("ss") is False:
+            if m.get("ss") is False and not c.get("oldfmt"):    # (the small-step machine has the restart of the current state format only)
                 run.mismatch("abf:small-step", {"case": c, "event": k}, "schedule executed by the walkers",
                              "SharedModel.sstep refuses an action of this schedule or ends in different grids")
                 tie_ok = False
@@ -360,8 +438,11 @@ def gen_meta(r, cid, big=False):
         restartfreq = [rf] * n
     else:
         restartfreq = [r.choice([0, 0, 2, 3, 4, 5]) for _ in range(n)]
-    span = (NB - 4) // n
-    nextbin = [2 + w * span for w in range(n)]
+    # margin 0: the first walker starts in bin 0 and the last one ends in the last bin: hills next to the boundaries, which
+    # the walkers (and their mirrors of the others) also keep in the list of hills treated off the grid
+    margin = r.choice([2, 2, 0])
+    span = (NB - 2 * margin) // n
+    nextbin = [margin + w * span for w in range(n)]
     lastbin = [None] * n
     started = [False] * n
     events = []
@@ -370,7 +451,7 @@ def gen_meta(r, cid, big=False):
 
     def do_step(w):
         b = nextbin[w]
-        nextbin[w] = 2 + w * span + ((nextbin[w] - 2 - w * span + 1) % span)
+        nextbin[w] = margin + w * span + ((nextbin[w] - margin - w * span - 1) % span if w == n - 1 else (nextbin[w] - margin - w * span + 1) % span)
         lastbin[w] = b
         started[w] = True
         events.append(["s", w, b])
@@ -403,7 +484,9 @@ def gen_meta(r, cid, big=False):
     if szd:
         events = no_zero_length_runs(events, {"s": (lambda e: e[1], "step"), "r": (lambda e: e[1], "restart")})
     return {"kind": "meta", "id": cid, "n": n, "nbins": NB, "hillfreq": hillfreq, "upfreq": upfreq,
-            "restartfreq": restartfreq, "lockstep": lock, "grids": r.random() < 0.7, "szd": szd, "events": events}
+            "restartfreq": restartfreq, "lockstep": lock, "grids": r.random() < 0.7, "szd": szd,
+            # no replicaID keyword: the name comes from the replica interface of the engine (its replica index)
+            "idfromcomm": r.random() < 0.25, "events": events}
 
 
 def meta_primitives(case):
@@ -612,7 +695,7 @@ def check_meta(run, exe, model, cases, scratch, fixflags="1 1"):
             for p in range(n):
                 if p == w:
                     continue
-                mid = "w%d" % p
+                mid = scen.rid(c, p)
                 mir = d["mirrors"].get(mid)
                 mq = mres[(w, p)][qidx[(w, p)][k]] if qidx[(w, p)].get(k) is not None and qidx[(w, p)][k] < len(mres[(w, p)]) else None
                 if mq is None:
@@ -946,7 +1029,19 @@ def gen_czar(r, cid, big=False):
     T = r.randint(4, 9)
     steps = [[(r.randint(0, nb - 1), r.choice([0.5, 0.25, 0.75]), V.dyadic(r, -4, 4)) for _ in range(n)] for _ in range(T)]
     gather_at = sorted(set([T - 1] + ([r.randint(1, T - 1)] if r.random() < 0.5 else [])))
-    return {"kind": "czar", "id": cid, "n": n, "nbins": nb, "freq": r.choice([2, 3, 100]), "steps": steps, "gather_at": gather_at}
+    freq = r.choice([2, 3, 100])
+    # script: no "shared on" in the configuration, the walkers call "cv bias a share" every freq steps (the gathers come after
+    # the first call: before it the bias does not share at all)
+    script = r.random() < 0.35
+    if script:
+        freq = r.choice([2, 3])
+        gather_at = [t for t in gather_at if t >= freq - 1]
+    # restarts of the whole job (every walker through its own state file, after the gather of that step if there is one)
+    restart_at = {}
+    if r.random() < 0.5:
+        for _ in range(r.randint(1, 2)):
+            restart_at[str(r.randint(1, T - 2))] = [r.choice(["text", "binary"]) for _ in range(n)]
+    return {"kind": "czar", "id": cid, "n": n, "nbins": nb, "freq": freq, "script": script, "hist": r.random() < 0.3, "twice": r.random() < 0.4, "restart_at": restart_at, "steps": steps, "gather_at": gather_at}
 
 
 def check_czar(run, exe, model, cases, scratch):
@@ -958,6 +1053,34 @@ def check_czar(run, exe, model, cases, scratch):
             res, stats = run_twice(scen.run_czar, exe, c, scratch, timeout=15.0)
         except W.WalkerTimeout as e:
             run.violation("czar:gather-deadlock", "the walkers did not complete the collective CZAR gather (%s)" % str(e)[:200], {"kind": "czar", "case": c})
+            continue
+        run.dist("czar:script-enabled" if c.get("script") else "czar:shared-on")
+        # restart of a walker = identity on everything it holds (SharedModel.w_restart), the z grids included
+        rbad = False
+        for (t, w_, fmt, b, a, msgs) in c.get("_restarts", []):
+            run.dist("czar:restart")
+            if not any(x.startswith("LOAD") and "err=ok" in x for x in msgs):
+                run.violation("czar:own-state-refused", "eABF walker %d could not read the %s state it had just written after step %d: %s" % (w_, fmt, t, msgs),
+                              {"kind": "czar", "case": c, "step": t})
+                rbad = True
+                break
+            if a is None or b is None:
+                run.violation("czar:no-state", "walker %d printed no state around its restart after step %d" % (w_, t), {"kind": "czar", "case": c})
+                rbad = True
+                break
+            def norm(d, f_):
+                v = d.get(f_)
+                return v if v is not None else [0] * len(d["cnt" if f_ == "ocnt" else "sum"])
+            diff = [f_ for f_ in ("cnt", "lcnt", "ocnt", "zcnt") if norm(a, f_) != norm(b, f_)] + \
+                   [f_ for f_ in ("sum", "lsum", "osum", "zsum") if any(not close(x, y, False) for x, y in zip(norm(a, f_), norm(b, f_)))]
+            if diff and c.get("script") and diff == [f_ for f_ in diff if f_ in ("lcnt", "lsum")] and b.get("shared_on") == 0:
+                diff = []     # sharing not enabled yet: the snapshot grids are not in use (and not saved)
+            if diff:
+                run.violation("czar:restart-changes-grids", "eABF walker %d, restart through a %s state after step %d: %s differ(s): before %s, after %s"
+                              % (w_, fmt, t, diff, {f_: b.get(f_) for f_ in diff}, {f_: a.get(f_) for f_ in diff}), {"kind": "czar", "case": c, "step": t})
+                rbad = True
+                break
+        if rbad:
             continue
         lines = []
         wrapped = [(t, w_, k_) for (t, dumps, pr, before) in res for w_, d in enumerate(list(dumps) + list(before)) if d
@@ -1049,11 +1172,15 @@ def gen_opes(r, cid, big=False):
     pace = r.choice([1, 2, 3])
     T = r.randint(3, 9)
     steps = [[V.dyadic(r, -8, 8, bits=4) for _ in range(n)] for _ in range(T)]
-    variant = r.choice(["plain", "plain", "compress", "nlist", "adaptive"])
-    if variant != "plain":
+    variant = r.choice(["plain", "plain", "compress", "nlist", "adaptive", "long", "explore"])
+    if variant == "long":
+        # so many kernels that the normalisation is updated from the new kernels only (the other branch of update_opes)
+        pace = 1
+        steps = [[V.dyadic(r, -8, 8, bits=4) for _ in range(n)] for _ in range(max(6, 30 // n) + r.randint(0, 3))]
+    elif variant != "plain":
         # close positions, so that kernels are merged / neighbour lists differ / the adaptive width matters
         steps = [[V.dyadic(r, -1, 1, bits=4) for _ in range(n)] for _ in range(T + 4)]
-    return {"kind": "opes", "id": cid, "n": n, "pace": pace, "variant": variant, "steps": steps}
+    return {"kind": "opes", "id": cid, "n": n, "pace": pace, "variant": variant, "nlreset": r.random() < 0.5, "smp": r.random() < 0.4, "steps": steps}
 
 
 def check_opes(run, exe, model, cases, scratch):
@@ -1065,6 +1192,11 @@ def check_opes(run, exe, model, cases, scratch):
             res, stats = run_twice(scen.run_opes, exe, c, scratch, timeout=15.0)
         except W.WalkerTimeout as e:
             run.violation("opes:gather-deadlock", "the walkers did not complete the schedule (%s)" % str(e)[:200], {"kind": "opes", "case": c})
+            continue
+        par = [x for s_ in stats for x in s_ if "parallel=" in x and "parallel=0" not in x]
+        if par:
+            run.violation("opes:replica-calls-in-parallel-bias-loop", "OPES with multiple walkers and the engine's thread pool on (a second bias defined): the "
+                          "exchange of kernels and weights ran inside the parallel loop over the biases: %s" % par[:2], {"kind": "opes", "case": c})
             continue
         rounds = []
         for t, row in enumerate(c["steps"]):
@@ -1087,7 +1219,7 @@ def check_opes(run, exe, model, cases, scratch):
                               % (t, norm), {"kind": "opes", "case": c, "step": t})
                 break
             run.dist("opes:%s" % c.get("variant", "plain")) if t == 0 else None
-            if c.get("variant", "plain") != "plain":
+            if c.get("variant", "plain") not in ("plain", "long"):
                 # kernel compression, neighbour lists, adaptive width: what every walker holds is a function of the same
                 # gathered data, so it must still be the same bit for bit (checked above); the rest needs the plain kernels
                 continue
@@ -1172,6 +1304,58 @@ def check_different_grids(run, exe, scratch):
 
 
 # ==========================================================================================
+# configurations outside the premises of the models: they must be refused, not run
+# ==========================================================================================
+
+def check_rejected_configs(run, exe, scratch):
+    """The models assume: every walker has a name, a registry, a positive exchange frequency, a grid fixed ahead of time
+    (no expandBoundaries) and projects its hills (no keepHills); shared ABF has no UI estimator and outputs at multiples of
+    the exchange frequency.  init_replicas_params() / colvarbias_abf::init() refuse everything else."""
+    d = os.path.join(scratch, "rej")
+    import shutil as _sh
+    _sh.rmtree(d, ignore_errors=True)
+    os.makedirs(d)
+    base = {"nbins": 8, "hillfreq": 1, "upfreq": 1}
+    reg = os.path.join(d, "registry.txt")
+
+    def meta(drop=None, add=()):
+        L = [x for x in scen.meta_conf(base, "w0", reg) if not (drop and x.strip().startswith(drop))]
+        return L[:-1] + list(add) + ["}"]
+
+    def abf(add):
+        L = scen.abf_conf({"nd": 1, "nbins": [3], "freq": 2})
+        return L[:-1] + list(add) + ["}"]
+    cases = [
+        ("meta:no-replicaID-and-no-replica-interface", meta(drop="replicaID")),
+        ("meta:no-registry", meta(drop="replicasRegistry")),
+        ("meta:replicaUpdateFrequency-0", meta(drop="replicaUpdateFrequency", add=["  replicaUpdateFrequency 0"])),
+        ("meta:keepHills", meta(add=["  keepHills on"])),
+        ("abf:outputFreq-not-a-multiple-of-sharedFreq", ["colvarsTrajFrequency 0"] + abf(["  outputFreq 3"])),
+    ]
+    # "cv bias a share" on a walker whose engine has no replica interface: an error, nothing else
+    run.count("rejected-config:script-share-without-replicas", True)
+    run.dist("rejected-config")
+    rc, out, err = V.run_lines(exe, ["natoms 1", "new", "config EOF"] + scen.abf_conf({"nd": 1, "nbins": [3], "freq": 0, "script": True}) +
+                               ["EOF", "pos 1 0 0 0x1p-1", "step", "script cv bias a share", "dumpshared a"], timeout=60, cwd=d)
+    sl = [x for x in out if x.startswith("SCRIPT")]
+    dm = scen.parse_shared(out)
+    if rc != 0 or not sl or "err=ok" in sl[0] or dm is None or dm.get("shared_on") != 0:
+        run.violation("config:share-without-replicas", "\"cv bias a share\" without a replica interface: rc=%s, %s, shared_on=%s (expected: an error, "
+                      "and sharing stays off)" % (rc, sl, dm and dm.get("shared_on")), {"kind": "rejected-config", "name": "script-share-without-replicas"})
+    for name, conf in cases:
+        run.count("rejected-config:" + name, True)
+        run.dist("rejected-config")
+        rc, out, err = V.run_lines(exe, ["natoms 1", "new", "config EOF"] + conf + ["EOF", "errtext"], timeout=60, cwd=d)
+        cl = [x for x in out if x.startswith("CONFIG")]
+        if rc != 0 or not cl:
+            run.violation("config:walker-crashed", "configuration %s: the walker ended with rc=%s, output %s" % (name, rc, out[-3:]),
+                          {"kind": "rejected-config", "name": name, "conf": conf})
+        elif "err=ok" in cl[0] and "nbias=1" in cl[0]:
+            run.violation("config:accepted-outside-the-premises", "configuration %s was accepted (%s): the models of C14 do not describe what such "
+                          "walkers do" % (name, cl[0]), {"kind": "rejected-config", "name": name, "conf": conf})
+
+
+# ==========================================================================================
 # the order of the two halves of write_state_to_replicas, as the operating system sees it
 # ==========================================================================================
 
@@ -1237,7 +1421,8 @@ def run_cases(run, exe, model, cases, scratch):
 
 
 def check(run):
-    st = V.standard_start(run, PROP, "coq/C14/Extract_C14.v", "props/C14/driver.ml", {"c14walk": ["props/C14/unit.cpp"]})
+    st = V.standard_start(run, PROP, "coq/C14/Extract_C14.v", "props/C14/driver.ml", {"c14walk": ["props/C14/unit.cpp"]},
+                          variant=os.environ.get("C14_VARIANT", "plain"))
     if st is None:
         return
     model, exes = st
@@ -1250,6 +1435,7 @@ def check(run):
     try:
         check_rewrite_order(run, exe, scratch)
         check_different_grids(run, exe, scratch)
+        check_rejected_configs(run, exe, scratch)
         run_cases(run, exe, model, load_corpus(), scratch)
         na, nm, nv, nr = (60, 45, 30, 12) if quick else (1500, 1200, 800, 300)
         big = not quick      # more than four walkers: thorough tier only
